@@ -797,29 +797,51 @@ def run_table(ctx, g, rng):
         with_units = bool(rng.random() < 0.5)
         m_rv = np.zeros(n, bool)
         m_err = np.zeros(n, bool)
+        m_t = np.zeros(n, bool)
         masked = bool(rng.random() < 0.5)
         if masked:
             m_rv[int(rng.integers(0, n))] = True
             if n > 3:
                 m_err[int(rng.choice([i for i in range(n) if not m_rv[i]]))] = True
+            if n > 4 and rng.random() < 0.5:
+                m_t[int(rng.choice([i for i in range(n) if not (m_rv[i] or m_err[i])]))] = True     # a missing epoch
+        # route: the table parser, or the initializer handed the masked columns themselves (the tutorials' pattern
+        # RVData(t=Time(tbl["bjd"], ...), rv=tbl["rv"], rv_err=tbl["rv_err"]) on a table with missing cells)
+        route = "guess_from_table" if (not masked or rng.random() < 0.6) else "initializer"
         tbl = Table()
-        tbl[col] = tvals
+        tbl[col] = MaskedColumn(tvals, mask=m_t) if m_t.any() else tvals
+        second = None
+        if route == "guess_from_table" and rng.random() < 0.25:
+            # the table carries the epochs a second time, in a generically named column and in the OTHER representation (JD
+            # next to an mjd column and vice versa): whichever column the parser reads, it must read it as what it is
+            second = str(rng.choice(["time", "t", "Time"]))
+            other = mjd if fmt == "jd" else mjd + 2400000.5
+            tbl[second] = MaskedColumn(other, mask=m_t) if m_t.any() else other
+            ctx.count("table:epochs also in a generic time column")
         cu = unit if with_units else None
         tbl[rvname] = MaskedColumn(rv, mask=m_rv, unit=cu) if masked else rv * (u.Unit(unit) if with_units else 1)
         tbl[errname] = MaskedColumn(err, mask=m_err, unit=cu) if masked else err * (u.Unit(unit) if with_units else 1)
         scale = (kw_orig or {}).get("scale", "tcb" if low.startswith("b") else "utc")
-        keep = ~(m_rv | m_err)
-        desc = dict(call=call, time_column=col, rv_column=rvname, err_column=errname, unit=unit, units_on_columns=with_units,
+        keep = ~(m_rv | m_err | m_t)
+        desc = dict(call=call, route=route, missing_time=np.flatnonzero(m_t).tolist(), second_time_column=second, time_column=col, rv_column=rvname, err_column=errname, unit=unit, units_on_columns=with_units,
                     time_kwargs_given=kw_orig, same_dict_reused=kw_orig is not None, times=tvals.tolist(), rv=rv.tolist(), rv_err=err.tolist(),
                     missing_rv=np.flatnonzero(m_rv).tolist(), missing_err=np.flatnonzero(m_err).tolist())
         history.append(desc)
         ctx.count("table:call")
         ctx.count("table:masked" if masked else "table:complete")
+        if m_t.any():
+            ctx.count("table:missing epoch")
         if call > 0 and kw_orig is not None and history[call - 1]["time_column"].lower().lstrip("b") != low.lstrip("b"):
             ctx.count("table:format-changes-with-reused-kwargs")
         ref = tj.RVData(Time(tvals[keep], format=fmt, scale=scale), rv[keep] * u.Unit(unit), err[keep] * u.Unit(unit))
         try:
-            d = tj.RVData.guess_from_table(tbl, time_kwargs=kw, rv_unit=None if with_units else u.Unit(unit))
+            if route == "guess_from_table":
+                d = tj.RVData.guess_from_table(tbl, time_kwargs=kw, rv_unit=None if with_units else u.Unit(unit))
+            else:
+                from astropy.utils.masked import Masked
+                d = tj.RVData(t=Time(np.ma.array(tvals, mask=m_t), format=fmt, scale=scale), rv=Masked(rv * u.Unit(unit), mask=m_rv),
+                              rv_err=Masked(err * u.Unit(unit), mask=m_err))
+                ctx.count("table:initializer handed masked Time / masked quantities")
             got = dict(t_bmjd=np.asarray(d._t_bmjd, float).tolist(), rv=np.asarray(d.rv.to_value(unit), float).tolist(),
                        rv_err=np.asarray(d.rv_err.to_value(unit), float).tolist())
         except Exception as e_:  # noqa: BLE001
@@ -873,6 +895,9 @@ def post(ctx):
     q = 1 if not ctx.thorough else 20
     ctx.require("construction cases (1-D errors)", c["init:std"], 200 * q)
     ctx.require("tables with missing (masked) entries", c["table:masked"], 20 * q)
+    ctx.require("tables with a missing epoch", c["table:missing epoch"], 4 * q)
+    ctx.require("tables carrying the epochs also in a generic time column", c["table:epochs also in a generic time column"], 5 * q)
+    ctx.require("initializer handed masked Time / masked quantities", c["table:initializer handed masked Time / masked quantities"], 5 * q)
     ctx.require("table calls re-using one time_kwargs dict while the time format changes", c["table:format-changes-with-reused-kwargs"], 5 * q)
     ctx.require("construction cases (covariance)", c["init:cov"], 80 * q)
     ctx.require("cases with tied times", c["ties:present"], 80 * q)
